@@ -2,8 +2,8 @@
 verus! {
 
 broadcast use f64_add_req, f64_sub_req, f64_mul_req, f64_div_req, f64_rem_req, f64_add_val, f64_sub_val, f64_mul_val, f64_div_val,
-    f64_eq_val, f64_ne_val, f64_lt_val, f64_gt_val, f64_partial_cmp_val, f64_zero_literal, f_neg_value, f_consts,
-    bigrational_ext, rat_numer_denom, rat_of_int_numer_denom, lemma_int_pow_nonzero, lemma_int_pow_zero_base;
+    f64_eq_val, f64_ne_val, f64_lt_val, f64_gt_val, f64_partial_cmp_val, f64_cmp_specs, f64_zero_literal, f_neg_value, f_consts,
+    bigrational_ext, rat_of_int_numer_denom, lemma_ir_floor, lemma_int_pow_nonzero, lemma_int_pow_zero_base;
 
 pub enum NumV { Int(int), Rat(real), Flt(f64), Cpx(Complex64) }
 
@@ -26,7 +26,7 @@ pub open spec fn level(v: NumV) -> int { match v { NumV::Int(_) => 0, NumV::Rat(
 pub open spec fn rat_f64_or_inf(x: real) -> f64 {
     match rat_to_f64(x) { Some(f) => f, None => if x > 0real { F_INF() } else { F_NEG_INF() } }
 }
-pub open spec fn to_rat(v: NumV) -> real recommends level(v) <= 1 { match v { NumV::Int(i) => i as real, NumV::Rat(r) => r, _ => 0real } }
+pub open spec fn to_rat(v: NumV) -> real recommends level(v) <= 1 { match v { NumV::Int(i) => ir(i), NumV::Rat(r) => r, _ => 0real } }
 pub open spec fn to_flt(v: NumV) -> f64 recommends level(v) <= 2 {
     match v { NumV::Int(i) => int_to_f64(i), NumV::Rat(r) => rat_f64_or_inf(r), NumV::Flt(f) => f, NumV::Cpx(z) => z.re }
 }
@@ -46,8 +46,8 @@ pub open spec fn rat_op(op: BinOp, a: real, b: real) -> real {
     match op {
         BinOp::Add => a + b, BinOp::Sub => a - b, BinOp::Mul => a * b,
         BinOp::Rem => real_trunc_rem(a, b),
-        BinOp::DivFloor => (a / b).floor() as real,
-        BinOp::ModFloor => a - b * ((a / b).floor() as real),
+        BinOp::DivFloor => ir((a / b).floor()),
+        BinOp::ModFloor => a - b * ir((a / b).floor()),
     }
 }
 pub open spec fn flt_op(op: BinOp, a: f64, b: f64) -> f64 {
